@@ -298,12 +298,41 @@ InvV = z3.Function("MatInv", V, z3.IntSort(), z3.IntSort(), z3.RealSort())
 MvnLP = z3.Function("MvnLogPdf", V, V, V, z3.RealSort())
 
 
+def mat_key(m):
+    """an abstract value standing for the matrix m as the ARGUMENT of an uninterpreted matrix function (inverse,
+    log-determinant): two matrices get the same key iff they are equal ELEMENT-WISE.  Congruence is stated by explicit
+    extensionality axioms (forall i j. A[i,j] = B[i,j]) -> key(A) = key(B) rather than by equality of lambda terms: a
+    solver may treat two lambdas with different but equivalent bodies - (C P) C^T vs C (P C^T) - as different arrays,
+    which gave a spurious counter-model for a re-associated Kalman update; with the axiom it has to exhibit indices at
+    which the matrices differ"""
+    import builtins as _b
+
+    from ..sym import engine, fresh
+    from ..tensor import Tensor, _dim, dim_eq
+
+    from .. import sym as _sym
+
+    seen = _sym.MAT_SEEN
+    idx = tuple(z3.Int("mk!i%d" % k) for k in range(m.ndim))
+    body = z3.simplify(m.fn(idx))
+    for m2, body2, key2 in seen:
+        if m2.ndim == m.ndim and _b.all(dim_eq(a, b2) for a, b2 in zip(m.shape, m2.shape)) and z3.eq(body, body2):
+            return key2
+    key = fresh("matrix", V)
+    for m2, body2, key2 in seen:
+        if m2.ndim != m.ndim or not _b.all(dim_eq(a, b2) for a, b2 in zip(m.shape, m2.shape)):
+            continue
+        rng = z3.And(*[z3.And(i >= 0, i < (z3.IntVal(d) if isinstance(_dim(d), int) else _dim(d))) for i, d in zip(idx, m.shape)])
+        _sym.EXTRA_AXIOMS.append(z3.Implies(z3.ForAll(list(idx), z3.Implies(rng, body == body2)), key == key2))
+    seen.append((m, body, key))
+    return key
+
+
 def inv(m):
     from ..tensor import Tensor
-    from ..gfi import enc
 
-    Assumed.note("jnp.linalg.inv: uninterpreted matrix inverse (only congruence is used)")
-    me = enc(m)
+    Assumed.note("jnp.linalg.inv: uninterpreted matrix inverse (only congruence is used: element-wise equal matrices have equal inverses)")
+    me = mat_key(m)
     return Tensor(m.shape, lambda idx: InvV(me, idx[0], idx[1]))
 
 
@@ -314,7 +343,7 @@ def slogdet(m):
     from ..gfi import enc
 
     Assumed.note("jnp.linalg.slogdet(M) = (sign, log|det M|): uninterpreted log-determinant (covariances: sign 1)")
-    return Sym(z3.RealVal(1)), Sym(LogDetV(enc(m)))
+    return Sym(z3.RealVal(1)), Sym(LogDetV(mat_key(m)))
 
 
 def mvn_logpdf(x, mean, cov):
